@@ -2348,14 +2348,62 @@ class _ExtMixin:
     def x_set(self, a, k, n):
         return Op("set", *a)
 
-    def x_dict(self, a, k, n):
-        d = DictObj(self.born_now())
+    def x_dict(self, a, k, n, typ=None):
+        d = DictObj(self.born_now(), typ) if typ else DictObj(self.born_now())
+        ref = self.alloc(d)
+        if a:
+            self.fill_dict(ref, d, a[0], n)
         for kk, v in k.items():
             d.entries.append((Const(kk), v, TRUE, ()))
-        return self.alloc(d)
+        return ref
+
+    def fill_dict(self, ref, d, src, n):
+        """dict(<mapping or iterable of (key, value) pairs>)"""
+        src = self.simp(src)
+
+        def store_pair(pair):
+            lo = self.as_list(pair)
+            if lo is not None and lo.concrete() and len(lo.items) == 2:
+                kx, vx = lo.items[0][1], lo.items[1][1]
+            elif isinstance(pair, Const) and isinstance(pair.v, tuple) and len(pair.v) == 2:
+                kx, vx = Const(pair.v[0]), Const(pair.v[1])
+            else:
+                kx, vx = Op("getitem", pair, Const(0)), Op("getitem", pair, Const(1))
+            self.setitem(ref, kx, vx, n)
+        if isinstance(src, GenV):
+            self.run_generator(src, store_pair, n)
+            return
+        so = self.heap.get(src.oid) if isinstance(src, Ref) else None
+        if isinstance(so, DictObj):
+            d.entries.extend(so.entries)
+            return
+        if isinstance(so, ListObj):
+            for it in so.items:
+                if it[0] == "v" and it[2] == TRUE and not (isinstance(it[1], Op) and it[1].op == "splat"):
+                    store_pair(it[1])
+                elif it[0] == "rep":
+                    _, L, term, g = it
+                    lo = self.as_list(term)
+                    if lo is not None and lo.concrete() and len(lo.items) == 2:
+                        kx, vx = lo.items[0][1], lo.items[1][1]
+                    else:
+                        kx, vx = Op("getitem", term, Const(0)), Op("getitem", term, Const(1))
+                    d.entries.append((kx, vx, g, (L,)))
+                else:
+                    raise AnalysisError("dict() of a sequence with conditional / spliced elements (line %s)" % getattr(n, "lineno", "?"))
+            return
+        if isinstance(src, Const) and isinstance(src.v, (tuple, list)):
+            for x in src.v:
+                store_pair(Const(x))
+            return
+        if isinstance(src, Const) and isinstance(src.v, dict):
+            for kk, vv in src.v.items():
+                d.entries.append((Const(kk), Const(vv), TRUE, ()))
+            return
+        raise AnalysisError("dict() of a value the analysis does not track (%r, line %s)" % (src, getattr(n, "lineno", "?")))
 
     def x_collections_OrderedDict(self, a, k, n):
-        return self.alloc(DictObj(self.born_now(), "OrderedDict"))
+        return self.x_dict(a, k, n, "OrderedDict")
 
     def x_collections_namedtuple(self, a, k, n):
         return Op("namedtuple", *a)
